@@ -116,6 +116,13 @@ def _profile_functions(fn, E, src):
     return sorted(seen)
 
 
+def _worker_init():
+    # a worker stuck inside the solver must die on terminate(): default SIGTERM action
+    import signal
+
+    signal.signal(signal.SIGTERM, signal.SIG_DFL)
+
+
 def _work(job):
     """explore one case symbolically (runs in a pool process)"""
     prop, idx, case, seed, opts = job
@@ -320,7 +327,7 @@ def run(prop, tier, seed, argv_opts=None):
     results = []
     errors = []
     ctx = mp.get_context("fork")
-    pool = ctx.Pool(nproc)
+    pool = ctx.Pool(nproc, initializer=_worker_init)
     try:
         pending = [pool.apply_async(_work, (j,)) for j in jobs]
         while pending:
